@@ -73,6 +73,14 @@ func (c14Service) Export(ctx context.Context, req *coltracepb.ExportTraceService
 	return resp, nil
 }
 
+// c14Headers: the headers of a Headers configuration (nil otherwise).
+func c14Headers(c verifc14.Config) map[string]string {
+	if c.Headers {
+		return map[string]string{"c14": "v"}
+	}
+	return nil
+}
+
 func TestVerifC14(t *testing.T) {
 	spans := c14Spans()
 	conn := new(grpc.ClientConn) // never used: the service client made from it is replaced; not closed by Stop (not "ours")
@@ -91,7 +99,7 @@ func TestVerifC14(t *testing.T) {
 			return verifc14.AsyncSerial
 		},
 		New: func(c verifc14.Config) verifc14.Exporter {
-			cl := newClient(WithGRPCConn(conn),
+			cl := newClient(WithGRPCConn(conn), WithHeaders(c14Headers(c)),
 				WithRetry(RetryConfig{Enabled: c.Enabled, InitialInterval: c.Initial, MaxInterval: c.MaxInterval, MaxElapsedTime: c.MaxElapsed}))
 			e, err := otlptrace.New(context.Background(), cl)
 			if err != nil {
